@@ -263,6 +263,38 @@ def run_case(c):
                                                     sorted(map(tuple, np.round(a, 7))) != sorted(map(tuple, np.round(b, 7)))):
                     viol.append({"kind": "dense_sparse_differ", "msg": "dense_to_sparse_svecs(dense) != sparse result for pair (%d,%d)" % (i, j)})
                     break
+    if via_primitive is None and len(xs) <= 40:
+        # the module-level function (what Primitive and the cutoff of force constants call) for this problem and then, in the same process, for a
+        # SIBLING: the same fractional positions and the same lengths a, b, c with other angles (an angle scan at fixed lengths) - each against its
+        # own brute force; anything remembered from the first call must not leak into the second
+        from phonopy.structure.cells import get_smallest_vectors as gsv
+
+        srng = np.random.default_rng(c["seed"] + 9)
+        lens = np.linalg.norm(L, axis=1)
+        for _ in range(20):
+            Q1 = _rot(srng)
+            Ls = L.copy()
+            k_ = int(srng.integers(3))
+            Ls[k_] = (0.85 * L[k_] / lens[k_] + 0.15 * Q1[0]) * 1.0
+            Ls[k_] *= lens[k_] / np.linalg.norm(Ls[k_])  # same length, another direction
+            if abs(np.linalg.det(Ls)) > 0.3 * abs(np.linalg.det(L)):
+                break
+        if np.linalg.det(Ls) * np.linalg.det(L) < 0:
+            Ls = None
+        for tag, Lx in (("first", L), ("sibling", Ls)):
+            if Lx is None:
+                continue
+            Lx = np.array(Lx, dtype="double", order="C")
+            sv_, mu_ = gsv(Lx, xs, xp, store_dense_svecs=c["dense"], symprec=symprec)
+            orc_, _ = brute_force(Lx, xs, xp, symprec) if tag == "sibling" else (oracle, 0)
+            obs["module_function_" + tag] = obs.get("module_function_" + tag, 0) + 1
+            for (i, j), (must, allowed, mlen) in orc_.items():
+                st, m = stored_of(sv_, mu_, c["dense"], i, j)
+                prob_ = compare(st @ Lx, must, allowed) if 1 <= m <= 27 else "multiplicity %d" % m
+                if prob_:
+                    viol.append({"kind": "svecs_wrong", "msg": "get_smallest_vectors (%s lattice of two with equal lengths and positions, other angles, same process) pair (%d,%d): %s" % (tag, i, j, prob_),
+                                 "dense": c["dense"], "family": c["family"], "sequence": tag, "near": c.get("near", 0.0), "symprec": symprec})
+                    break
     if via_primitive is not None:
         psv, pmu = via_primitive.get_smallest_vectors()
         Lp = np.array(via_primitive.cell)
